@@ -67,6 +67,8 @@ def render(e):
         return "(lambda %s: %s)(%s)" % (e[1], render(e[2]), render(e[3]))
     if k == "fail":
         return "_fail(%r)" % (e[1],)
+    if k == "try":
+        return "_try(lambda: %s, lambda: %s)" % (render(e[1]), render(e[2]))
     if k == "failx":
         return "_fail(%r + str(%s))" % (e[1], e[2]) if e[2] else "_fail(%r)" % (e[1],)
     if k == "failnone":
@@ -131,6 +133,8 @@ def walk(e):
         yield from walk(e[2]); yield from walk(e[3])
     elif k == "failnone":
         yield from walk(e[2])
+    elif k == "try":
+        yield from walk(e[1]); yield from walk(e[2])
 
 
 def global_names(e):
